@@ -24,8 +24,8 @@ ASSUMPTIONS = ["reference = harness implementation of the textbook recursion (ne
                "where it has not converged (moves > 1e-13) are 'slow geometry' and judged for feasibility only",
                "the 1e-3 near-optimality figure is asserted only when it is implied by the stopping rule: with q the reference "
                "run's measured contraction factor, sqrt(tol)*q/(1-q) <= 1e-4; otherwise the case is counted, not judged",
-               "stop-by-rule is detected from the proxies alone: the routine's stopping quantity equals the sum of squared moves "
-               "between consecutive projector outputs in the last sweep"]
+               "stop-by-rule is detected from the proxies alone: each proxy sees the argument and the result of its projector and "
+               "replicates the routine's increment arithmetic, so the stopping quantity of every sweep is reproduced bit for bit"]
 
 
 @st.composite
@@ -101,7 +101,7 @@ def run(case):
     x0 = np.array(case["x0"], dtype=float)
     tol, max_iter = float(case["tol"]), int(case["max_iter"])
     p = len(P)
-    st_ = {"cnt": 0, "last": x0.copy(), "cI": 0.0, "sweeps": [], "calls": [0] * p}
+    st_ = {"cnt": 0, "cI": 0.0, "sweeps": [], "calls": [0] * p, "y": [np.zeros(n) for _ in range(p)]}
 
     def wrap(i, Pi):
         def w(v):
@@ -112,8 +112,9 @@ def run(case):
                     st_["sweeps"].append(st_["cI"])
                 st_["cI"] = 0.0
                 st_["cnt"] += 1
-            st_["cI"] += float(np.linalg.norm(out - st_["last"]) ** 2)
-            st_["last"] = np.array(out, dtype=float, copy=True)
+            ynew = out - v          # the routine's own increment arithmetic (see scenario.DykstraLog)
+            st_["cI"] += float(np.linalg.norm(st_["y"][i] - ynew) ** 2)
+            st_["y"][i] = np.array(ynew, dtype=float, copy=True)
             return out
         return w
     x0_in = x0.copy()
